@@ -70,6 +70,9 @@ var (
 	fixedClassesOnce       sync.Once
 	versions               = []string{"0.13.2", "0.13.4", "0.14.0", "0.14.1"}
 	errTimeout             = errors.New("crash engine: timeout waiting for the pruner service")
+	// errOnRealCode marks a failure of the REAL code while the initial world is prepared (pruning
+	// a freshly built valid chain): an observation on the code, not a harness problem
+	errOnRealCode = errors.New("real code failed on a valid chain")
 	noPreConfirmed         = func() (blockchain.PreConfirmedReader, error) { return nil, nil }
 	bigBatch               = 96 * 1024 * 1024
 	_              context.Context
@@ -234,7 +237,7 @@ func getBase(off uint64, newState bool) (*baseImage, error) {
 			return nil, fmt.Errorf("base block: %w", err)
 		}
 		if _, _, err := pruner.PruneUpto(context.Background(), mem, off, bigBatch); err != nil {
-			return nil, fmt.Errorf("base prune: %w", err)
+			return nil, fmt.Errorf("%w: PruneUpto(%d) of a freshly built chain: %v", errOnRealCode, off, err)
 		}
 		img.pruned = mem
 		kvs, err := faultkv.Dump(mem)
